@@ -49,6 +49,22 @@ fn reference_romanise(w: &WordS, roms: &[Rom]) -> String {
     buf
 }
 
+/// is some occurrence of `typed` directly preceded by its own base segment (possibly lengthened)?  Then `base + key` would add the
+/// payload to that whole run, which is not what the typed text says.
+fn preceded_by_same(w: &str, typed: &str, base: &str) -> bool {
+    let cs: Vec<char> = w.chars().collect();
+    let t: Vec<char> = typed.chars().collect();
+    let b = base.chars().next().unwrap_or(' ');
+    for i in 0..cs.len() {
+        if cs[i..].starts_with(&t) {
+            let mut j = i;
+            while j > 0 && (cs[j - 1] == 'ː' || cs[j - 1] == ':') { j -= 1; }
+            if j > 0 && cs[j - 1] == b { return true }
+        }
+    }
+    false
+}
+
 const FRESH: &[&str] = &["§", "¤", "Ж", "ю", "♦", "§§", "¤Ж", "ℵ", "Ω1", "µ"];
 
 pub fn spec(args: &[String]) -> i32 {
@@ -128,7 +144,7 @@ pub fn spec(args: &[String]) -> i32 {
         let into = vec![if plus { format!("+{fresh} > {rhs}") } else { format!("{fresh} > {rhs}") }];
         let base: String = typed.chars().take(1).collect();
         // `+s` adds to the previously read segment, long or not: "kk+s" is a long k with the payload, which is typed "kʷː"
-        let mut plain: Vec<String> = words.iter().filter(|w| w.contains(typed) && !w.contains(&format!("{typed}ː")) && !w.contains(&format!("{typed}:")) && !(plus && w.contains(&format!("{base}{typed}")))).cloned().collect();
+        let mut plain: Vec<String> = words.iter().filter(|w| w.contains(typed) && !w.contains(&format!("{typed}ː")) && !w.contains(&format!("{typed}:")) && !(plus && preceded_by_same(w, typed, &base))).cloned().collect();
         let long_case = plus && g.rng.chance(1, 2);
         if long_case { plain = words.iter().map(|w| format!("{w}.{typed}ː")).collect(); }
         if !plain.is_empty() {
